@@ -28,27 +28,63 @@ func vpBitsOf(bl *utils.BitList) []bool {
 	return out
 }
 
+func vpAzPrefix(k int) string {
+	switch k {
+	case 1:
+		return "ab"
+	case 2:
+		return "12"
+	case 3:
+		return "\x01@"
+	case 4:
+		return "A!?"
+	case 5:
+		return "\x80\x81"
+	case 6:
+		return "a. b"
+	case 7:
+		return "9\r\n"
+	case 8:
+		return "<=>?[]{}" // long enough that the cheapest state is latched to Punct
+	case 9:
+		return "0123456789" // ... to Digit
+	case 10:
+		return "\x01\x02\x03\x04\x05\x06" // ... to Mixed
+	case 11:
+		return "abcdefgh" // ... to Lower
+	case 12:
+		return "A. B, C: " // punctuation pairs
+	}
+	return ""
+}
+
+// MAPORDER-az (C15): the high-level encoding does not depend on the iteration order of any map
+// (Go randomises it per loop): the same payload encoded under ascending and descending key order
+// gives the same bit stream.
+func VP_AZ_maporder() {
+	n := vpConfig("n")
+	sym := vpBytes("d", n)
+	data := append([]byte(vpAzPrefix(vpConfig("prefix"))), sym...)
+	a := vpBitsOf(highlevelEncode(data))
+	for r := 0; r < vpNativeRepeat(300); r++ {
+		vpMapOrder(true)
+		b := vpBitsOf(highlevelEncode(data))
+		vpMapOrder(false)
+		vpAssert(len(a) == len(b), "same stream length under either map iteration order")
+		if len(a) == len(b) {
+			for i := range a {
+				vpAssert(a[i] == b[i], "same bit stream under either map iteration order")
+			}
+		}
+	}
+	vpCover("reached", true)
+}
+
 // AZ-A: the high-level encoder on a concrete prefix (which leaves the encoder in a known mode
 // mix) followed by symbolic bytes, read back by the reference decoder.
 func VP_AZ_hl() {
 	n := vpConfig("n")
-	prefix := ""
-	switch vpConfig("prefix") {
-	case 1:
-		prefix = "ab"
-	case 2:
-		prefix = "12"
-	case 3:
-		prefix = "\x01@"
-	case 4:
-		prefix = "A!?"
-	case 5:
-		prefix = "\x80\x81"
-	case 6:
-		prefix = "a. b"
-	case 7:
-		prefix = "9\r\n"
-	}
+	prefix := vpAzPrefix(vpConfig("prefix"))
 	sym := vpBytes("d", n)
 	if vpConfig("class") == 1 { // binary run: bytes that no mode can express
 		for i := 0; i < n; i++ {
@@ -350,7 +386,6 @@ func VP_AZ_e2e() {
 	}
 	vpCover("reached", true)
 }
-
 
 // C15 / C16: purity
 func VP_AZ_pure() {
